@@ -364,6 +364,14 @@ func Exec(fsys hackpadfs.FS, st Step, hs *Handles, mt MTimeSet) (res Result) {
 	case "Sub":
 		_, err := hackpadfs.Sub(fsys, st.P)
 		fillErr(&res, err)
+	case "SubRename": // Rename P2 -> P2+"-renamed" inside a view of directory P
+		view, err := hackpadfs.Sub(fsys, st.P)
+		if err != nil {
+			fillErr(&res, err)
+			res.Data = "first-level-failed"
+			break
+		}
+		fillErr(&res, hackpadfs.Rename(view, st.P2, st.P2+"-renamed"))
 	case "SubSub": // a view of directory P2 taken from a view of directory P; the result is that of the second call
 		view, err := hackpadfs.Sub(fsys, st.P)
 		if err != nil {
